@@ -46,3 +46,76 @@ pub proof fn lemma_identifier_prefix_free(a: Identifier, ra: Seq<u8>, b: Identif
     lemma_identifier_layout(b, rb);
     lemma_idkind_code_injective();
 }
+
+pub proof fn lemma_consumer_layout(v: Consumer, rest: Seq<u8>)
+    ensures
+        ({
+            let b = enc_consumer(v) + rest;
+            &&& enc_consumer(v).len() == 3 + v.id.value@.len()
+            &&& b.len() == 3 + v.id.value@.len() + rest.len()
+            &&& b[0] == consumerkind_code(v.kind)
+            &&& b.subrange(1, b.len() as int) == enc_identifier(v.id) + rest
+        }),
+{
+    let b = enc_consumer(v) + rest;
+    assert(b.subrange(1, b.len() as int) =~= enc_identifier(v.id) + rest);
+}
+
+pub proof fn lemma_partitioning_layout(v: Partitioning, rest: Seq<u8>)
+    ensures
+        ({
+            let b = enc_partitioning(v) + rest;
+            &&& enc_partitioning(v).len() == 2 + v.value@.len()
+            &&& b.len() == 2 + v.value@.len() + rest.len()
+            &&& b[0] == partitioningkind_code(v.kind)
+            &&& b[1] == v.length
+            &&& b.subrange(2, 2 + v.value@.len() as int) == v.value@
+            &&& b.subrange(2 + v.value@.len() as int, b.len() as int) == rest
+        }),
+{
+    let b = enc_partitioning(v) + rest;
+    assert(b.subrange(2, 2 + v.value@.len() as int) =~= v.value@);
+    assert(b.subrange(2 + v.value@.len() as int, b.len() as int) =~= rest);
+}
+
+pub proof fn lemma_strategy_layout(v: PollingStrategy)
+    ensures
+        enc_strategy(v).len() == 9,
+        enc_strategy(v)[0] == pollingkind_code(v.kind),
+        enc_strategy(v).subrange(1, 9) == le64(v.value),
+{
+    lemma_le_facts();
+    assert(enc_strategy(v).subrange(1, 9) =~= le64(v.value));
+}
+
+// label: C13.inj.Consumer
+pub proof fn lemma_consumer_prefix_free(a: Consumer, ra: Seq<u8>, b: Consumer, rb: Seq<u8>)
+    requires consumer_valid(a), consumer_valid(b), enc_consumer(a) + ra == enc_consumer(b) + rb,
+    ensures consumer_eq(a, b), ra == rb,
+{
+    lemma_consumer_layout(a, ra);
+    lemma_consumer_layout(b, rb);
+    lemma_consumerkind_code_injective();
+    lemma_identifier_prefix_free(a.id, ra, b.id, rb);
+}
+
+// label: C13.inj.Partitioning
+pub proof fn lemma_partitioning_prefix_free(a: Partitioning, ra: Seq<u8>, b: Partitioning, rb: Seq<u8>)
+    requires part_valid(a), part_valid(b), enc_partitioning(a) + ra == enc_partitioning(b) + rb,
+    ensures part_eq(a, b), ra == rb,
+{
+    lemma_partitioning_layout(a, ra);
+    lemma_partitioning_layout(b, rb);
+    lemma_partitioningkind_code_injective();
+}
+
+// label: C13.inj.PollingStrategy
+pub proof fn lemma_strategy_injective(a: PollingStrategy, b: PollingStrategy)
+    requires enc_strategy(a) == enc_strategy(b),
+    ensures a == b,
+{
+    lemma_strategy_layout(a);
+    lemma_strategy_layout(b);
+    lemma_pollingkind_code_injective();
+    lemma_le_facts();
+}
